@@ -130,7 +130,7 @@ macro_rules! scan {
 //@ oracle: the iterator yields exactly { ctrl - (i+1)*kv_size : ctrl[i] top bit clear, i < buckets }, each once
 //@ stubs: debugger::read_memory_by_pid -> the real harness allocation holding the table (EIO outside it)
 //@ assumes: hashbrown's layout guarantee that control bytes [buckets, 16) of a table smaller than a group are EMPTY
-//@ unwindset: table_scan=18; BucketIterator.*next=3; match_empty_or_deleted=17; read_memory_by_pid=17
+//@ unwindset: table_scan=18; ?BucketIterator.*next=3; ?match_empty_or_deleted=17; ?read_memory_by_pid=17
 //@ timeout: 1200
 scan!(c06_hashbrown_scan_b4, 4, 8, 16 * 8, 18, 4);
 
@@ -144,7 +144,7 @@ scan!(c06_hashbrown_scan_b4, 4, 8, 16 * 8, 18, 4);
 //@ oracle: as c06_hashbrown_scan_b4
 //@ stubs: read_memory_by_pid -> harness allocation
 //@ assumes: control bytes [buckets, 16) EMPTY
-//@ unwindset: table_scan=18; BucketIterator.*next=3; match_empty_or_deleted=17; read_memory_by_pid=17
+//@ unwindset: table_scan=18; ?BucketIterator.*next=3; ?match_empty_or_deleted=17; ?read_memory_by_pid=17
 //@ timeout: 1200
 scan!(c06_hashbrown_scan_b1, 1, 1, 16, 18, 1);
 
@@ -158,7 +158,7 @@ scan!(c06_hashbrown_scan_b1, 1, 1, 16, 18, 1);
 //@ oracle: as c06_hashbrown_scan_b4
 //@ stubs: read_memory_by_pid -> harness allocation
 //@ assumes: control bytes [buckets, 16) EMPTY
-//@ unwindset: table_scan=18; BucketIterator.*next=3; match_empty_or_deleted=17; read_memory_by_pid=17
+//@ unwindset: table_scan=18; ?BucketIterator.*next=3; ?match_empty_or_deleted=17; ?read_memory_by_pid=17
 //@ timeout: 1800
 scan!(c06_hashbrown_scan_b8, 8, 24, 16 * 24, 18, 8);
 
@@ -171,7 +171,7 @@ scan!(c06_hashbrown_scan_b8, 8, 24, 16 * 24, 18, 8);
 //@ bounds: 16 buckets (exactly one group), 8-byte entries; loops 18
 //@ oracle: as c06_hashbrown_scan_b4
 //@ stubs: read_memory_by_pid -> harness allocation
-//@ unwindset: table_scan=18; BucketIterator.*next=3; match_empty_or_deleted=17; read_memory_by_pid=17
+//@ unwindset: table_scan=18; ?BucketIterator.*next=3; ?match_empty_or_deleted=17; ?read_memory_by_pid=17
 //@ mem_gb: 32
 //@ timeout: 3600
 scan!(c06_hashbrown_scan_b16, 16, 8, 16 * 8, 18, 16);
@@ -185,7 +185,7 @@ scan!(c06_hashbrown_scan_b16, 16, 8, 16 * 8, 18, 16);
 //@ bounds: 32 buckets (two groups), 4-byte entries, at most 3 elements in the table at arbitrary positions (instance bound: every it.next() call may be the one that crosses the group boundary, which makes 33 calls too expensive); harness loops 34, group loops 17
 //@ oracle: as c06_hashbrown_scan_b4, across the group boundary (bucket 16.. are found through next_n(16))
 //@ stubs: read_memory_by_pid -> harness allocation
-//@ unwindset: table_scan=34; BucketIterator.*next=4; match_empty_or_deleted=17; read_memory_by_pid=17
+//@ unwindset: table_scan=34; ?BucketIterator.*next=4; ?match_empty_or_deleted=17; ?read_memory_by_pid=17
 //@ timeout: 3600
 //@ mem_gb: 16
 scan!(c06_hashbrown_scan_b32, 32, 4, 32 * 4, 18, 3);
